@@ -168,7 +168,7 @@ func (ctx *MessageContext) Broadcast(msgType MessageType, data interface{}) {
 	if err != nil {
 		return
 	}
-	ctx.Conn.hub.broadcast <- msgData
+	ctx.Conn.hub.enqueueBroadcast(msgData)
 }
 
 // BroadcastToRoom sends a message to all connections in a room
@@ -180,11 +180,11 @@ func (ctx *MessageContext) BroadcastToRoom(room string, msgType MessageType, dat
 	if err != nil {
 		return
 	}
-	ctx.Conn.hub.broadcastToRoom <- &RoomMessage{
+	ctx.Conn.hub.enqueueRoomMessage(&RoomMessage{
 		RoomName:    room,
 		Message:     msgData,
 		ExcludeConn: ctx.Conn,
-	}
+	})
 }
 
 // RoomAction represents an action on a room
